@@ -8,7 +8,8 @@
      Reserve   if spendables: await self.reserve_outputs(...)
      Unlock    leaving the `async with`
        ... another round (Transaction.create loops up to five times), or
-     Abort     nothing selected: InsufficientFundsError -> await ledger.release_tx(tx)
+     Abort     nothing selected (InsufficientFundsError) or tx.sign raised after the last round:
+               the handler runs await ledger.release_tx(tx)
      Finish    the caller broadcasts the transaction (its inputs become spent) or abandons it
                (ledger.release_tx)
 
@@ -57,6 +58,7 @@ Section Builds.
   Variable choose : nat -> nat -> list utxo -> list utxo. (* build, round, rows read -> selection *)
   Variable more : nat -> nat -> list utxo -> bool.        (* build, round, inputs so far -> one more round *)
   Variable finish : nat -> bool.                          (* build -> true: broadcast, false: abandon *)
+  Variable can_sign : nat -> list utxo -> bool.           (* build, its inputs -> tx.sign succeeds (true for sign=False) *)
 
   Definition step (st : state) (b : nat) : state :=
     if n <=? b then st else
@@ -82,7 +84,8 @@ Section Builds.
           (upd (bs st) b
                (if nonempty (sel B) then
                   if more b (rnd B) (held B) then mkB PLock (S (rnd B)) [] [] (held B)
-                  else mkB PFinish (S (rnd B)) [] [] (held B)
+                  else if can_sign b (held B) then mkB PFinish (S (rnd B)) [] [] (held B)
+                  else mkB PAbort (S (rnd B)) [] [] (held B)   (* tx.sign raised: handler -> release_tx *)
                 else mkB PAbort (rnd B) [] [] (held B)))
     | PAbort =>
       mkS (release (map uid (held B)) (wal st)) (lock st)
